@@ -15,7 +15,9 @@ vars == <<cfg, phase>>
 Sets ==
   { <<"Debug">>, <<"Clone">>, <<"Clone", "Copy">>, <<"Copy">>, <<"PartialEq">>, <<"PartialEq", "Eq">>, <<"Eq">>,
     <<"PartialEq", "PartialOrd">>, <<"PartialEq", "Eq", "PartialOrd", "Ord">>, <<"PartialEq", "Eq", "Ord">>,
-    <<"Hash">>, <<"Default">>, <<"Into">> }
+    <<"Hash">>, <<"Default">>, <<"Into">>,
+    \* Ord alone, next to hand-written unconditional PartialEq / Eq / PartialOrd: its own bounds in isolation
+    <<"Ord">> }
 
 \* Debug has one code path per (shape, named_field) combination: vary named_field for it
 MCTypeOptSet(k) ==
@@ -31,12 +33,14 @@ MCVarOptSet(c) ==
 \* treatments that decide delegation, for the trait set at hand
 Choices(c) ==
   LET has(t) == HasTrait(c, t) IN
-  { [DefField EXCEPT !.ty = ty, !.dbg = d, !.clone = cl, !.eq = e, !.ord = o, !.hash = h, !.into = m] :
+  { [DefField EXCEPT !.ty = ty, !.dbg = d, !.clone = cl, !.eq = e, !.ord = o, !.rank = rk, !.hash = h, !.into = m] :
       ty \in TypeClasses \cup (IF has("Into") THEN {"A"} ELSE {}),
       d \in (IF has("Debug") THEN Treatments ELSE {Own}),
       cl \in (IF has("Clone") /\ ~(c.kind = "struct" /\ has("Copy")) THEN {Own, Method} ELSE {Own}),
       e \in (IF has("PartialEq") /\ Len(c.opts.traits) <= 2 THEN Treatments ELSE {Own}),
       o \in (IF has("PartialOrd") \/ has("Ord") THEN Treatments ELSE {Own}),
+      \* an explicit rank next to any treatment (an ignored field with a rank is still not delegated)
+      rk \in (IF has("PartialOrd") \/ has("Ord") THEN {NoRank, 2} ELSE {NoRank}),
       h \in (IF has("Hash") THEN Treatments ELSE {Own}),
       m \in (IF ~has("Into") THEN { <<>> }
              ELSE IF Len(c.opts.targets) = 1 THEN { <<>>, <<[t |-> "A", m |-> FALSE]>>, <<[t |-> "A", m |-> TRUE]>> }
